@@ -350,10 +350,10 @@ def standard_proof_phase(ck, prop_file, need_srcfacts=True):
         errs = re.findall(r'File "([^"]+)", line (\d+)[^\n]*\n(?:[^\n]*\n){0,3}?Error:?[^\n]*', log)
         ck.notes.append('coq build had errors: ' + '; '.join('%s:%s' % e for e in errs[:5]))
         # name the files whose proofs no longer check (the per-theorem audit below only sees their stale .vo)
-        full = re.findall(r'File "([^"]+)", line (\d+)[^\n]*\n((?:[^\n]*\n){0,6}?)(?=\S*make|File |\Z)', log)
+        full = re.findall(r'File "([^"]+)", line (\d+)[^\n]*\nError:?([^\n]*(?:\n[^\n]*){0,4})', log)
         for f, ln, msg in full[:3]:
-            if 'Error' in msg:
-                broken.append('coq build: %s line %s no longer checks: %s' % (f, ln, ' '.join(msg.split())[:300]))
+            if 'inconsistent assumptions' not in msg:
+                broken.append('coq build: %s line %s no longer checks: Error: %s' % (f, ln, ' '.join(msg.split())[:300]))
     obs = ck.coq_obligations(prop_file)
     for o in obs:
         if not o['discharged']:
